@@ -42,6 +42,7 @@ type ftask struct {
 	Lo, Hi int  // last letters [Lo,Hi) of the alphabet only (Hi == 0: all): a short frontier is cut into slices so that every worker has work; handle programmes: File methods F number [Lo,Hi) only
 	Handle bool // handle programmes (expandHandle) instead of one level of the history tree
 	Late   int  // handle programmes: the function of the plan is installed after this many calls of the opening prefix (when.go); 0: the schedule of the engine
+	GAll   bool // handle programmes: the follow-up call G ranges over the neutral argument tuples (ops.go, fileNoopCalls) as well (thorough tier)
 	Quit   bool
 }
 
@@ -123,7 +124,7 @@ func serveFault(spec string) {
 			if err != nil {
 				r = freply{Err: err.Error()}
 			} else {
-				r = expandHandle(ok, ft, t.Prefix, t.Lo, t.Hi)
+				r = expandHandle(ok, ft, t.Prefix, t.Lo, t.Hi, t.GAll)
 			}
 		} else {
 			r = expandFault(ok, ft, t.Prefix, t.Lo, t.Hi)
@@ -576,7 +577,7 @@ func handleLetters(s *sys, pres []string) (prefixes [][]int, fileOps []int, clos
 	return prefixes, fileOps, closeOp
 }
 
-func expandHandle(ok, ft *sys, prefix []int, lo, hi int) (r freply) {
+func expandHandle(ok, ft *sys, prefix []int, lo, hi int, gAll bool) (r freply) {
 	r.Covered, r.Injected, r.Invoked = map[int]int{}, map[int]int{}, map[int]bool{}
 	r.Classes, r.Outcomes, r.TraceLens = map[string]int{}, map[string]int{}, map[int]int{}
 
@@ -589,6 +590,25 @@ func expandHandle(ok, ft *sys, prefix []int, lo, hi int) (r freply) {
 	}()
 
 	_, fileOps, closeOp := handleLetters(ok, nil)
+
+	// The failing call F ranges over the WHOLE File alphabet, the neutral argument
+	// tuples (ops.go, fileNoopCalls: Seek(0,SeekCurrent), Truncate(current size),
+	// empty buffers ...) included: a shortcut for them sits in F, in front of the
+	// consultation. As the follow-up call G a neutral tuple shows nothing of the
+	// handle that its sibling with an effect (and the offset/Stat probe of the state
+	// key) does not show, so the quick tier follows up with the other letters only;
+	// the thorough tier (gAll) with all of them.
+	followOps := fileOps
+
+	if !gAll {
+		followOps = nil
+
+		for _, g := range fileOps {
+			if !isNoopFileCall(ok.ops[g].C) {
+				followOps = append(followOps, g)
+			}
+		}
+	}
 
 	replayPrefix := func() error {
 		if err := ok.Reset(); err != nil {
@@ -711,7 +731,7 @@ func expandHandle(ok, ft *sys, prefix []int, lo, hi int) (r freply) {
 				plan := map[string]any{"k": k, "fn": full[k].Fn.String(), "params": full[k].P, "during_call": full[k].Call, "part": full[k].Part, "err": en}
 				first := true
 
-				for _, g := range fileOps {
+				for _, g := range followOps {
 					var pviols []pv
 
 					collect := &pviols
@@ -1213,6 +1233,10 @@ func (fe *faultEngine) runLevel(deadline time.Time, report func(sig map[string]s
 // the pre call - the handle (and the Sub file system it came from) exists
 // before the function that has to govern it. An engine with a family and no
 // schedule does both: function first, and function at every position inside.
+// handleFollowAll: the follow-up call G of the handle programmes ranges over the
+// neutral argument tuples too (set by main for the thorough tier; see expandHandle).
+var handleFollowAll bool
+
 func (fe *faultEngine) runHandle(pres []string, deadline time.Time, report func(sig map[string]string, replay any, count int)) {
 	if fe.HarnessErr != "" {
 		return
@@ -1228,7 +1252,7 @@ func (fe *faultEngine) runHandle(pres []string, deadline time.Time, report func(
 		if sched == "" {
 			// the function of the plan is there before the first call; an engine with a
 			// family (family.go) goes on to install it inside the prefix as well
-			whole = append(whole, ftask{Prefix: p, Handle: true})
+			whole = append(whole, ftask{Prefix: p, Handle: true, GAll: handleFollowAll})
 
 			if fam == "" {
 				continue
@@ -1236,7 +1260,7 @@ func (fe *faultEngine) runHandle(pres []string, deadline time.Time, report func(
 		}
 
 		for late := 1; late <= len(p); late++ {
-			whole = append(whole, ftask{Prefix: p, Handle: true, Late: late})
+			whole = append(whole, ftask{Prefix: p, Handle: true, Late: late, GAll: handleFollowAll})
 		}
 	}
 
